@@ -173,6 +173,11 @@ Definition with_ari (d : bool) (x : cert) : cert :=
 Definition fresh_cert (w : world) (n : name) : cert :=
   Cert (w_fresh w) [n] true false false false false None.
 
+(** effects that can be observed from outside the process *)
+Definition observable (e : effect) : bool :=
+  match e with EAllow _ _ | EEvict _ | ESelfWait _ => false | _ => true end.
+
+
 Section WithSpace.
   Variable is_space : N -> bool.
 
@@ -453,5 +458,17 @@ Section WithSpace.
       | None => negb (existsb (existsb needs_gate) gs)
       end
     else negb (existsb (existsb is_issue) gs).
+
+  (** ** the specification on the implementation's observation (DecisionFunc calls are visible,
+      allowlist look-ups are not: for the allowlist the policy itself is evaluated) *)
+  Definition spec_hs (pol : option policy) (hn : option name) (gs : list (list effect)) : bool :=
+    match pol with
+    | Some (PAllow l) =>
+        negb (existsb (existsb needs_gate) gs) ||
+        match hn with Some n => allow_ok l n && qualifies is_space n | None => false end
+    | Some (PDecision _) => gated_ok true hn gs
+    | None => gated_ok false hn gs
+    end.
+
 
 End WithSpace.
